@@ -14,8 +14,9 @@
    * NumPy's own indexing (np_getitem): data movement and result shape.  NumPy is an oracle of the environment;
      its model is tied to NumPy by the correspondence check only.
    * the psiaudio code on top of it: normalize_index and the attribute fix-up of __getitem__, as written,
-     including every raise.  `rep = true` describes the code after the three `fix:` commits of branch fix-C11,
-     `rep = false` the code before them. *)
+     including every raise.  `rep = true` describes the code after the three `fix:` commits of branch fix-C11 and
+     the commit "integer index arrays and lists are not mistaken for all-True masks" (fix-C11idx: fix_time on a
+     list, normalize_int_array at the end of this file), `rep = false` the code before all of them. *)
 From PV Require Export Common.PySlice.
 
 (* ------------------------------------------------------------------ index language *)
@@ -353,7 +354,11 @@ Definition fix_time (rep : bool) (x : pd) (t : nitem) : err + (Z * Z) :=
   match t with
   | NInt _ => inl ENotImpl
   | NNew => inl EIndex
-  | NListZ zs => if all_nonzero zs then inr (s0 x, fsd x) else inl EValue
+  | NListZ zs =>
+    (* a python list on the time axis.  Repaired (fix-C11idx): only an all-True mask leaves the time axis as it is -
+       `all(isinstance(t, (bool, np.bool_)) and t for t in time_slice)`: a list of ints passes only when empty.
+       Before: `np.all(time_slice)` took a list of non-zero ints for an all-True mask. *)
+    if (if rep then zlen zs =? 0 else all_nonzero zs) then inr (s0 x, fsd x) else inl EValue
   | NListB bs => if forallb (fun b => b) bs then inr (s0 x, fsd x) else inl EValue
   | NSlice a _ c =>
     let n := n_time x in
@@ -811,3 +816,75 @@ Definition cres_of (plain : bool) (r : res) : cres :=
   end.
 Definition check_concat_any (dm : option cdim) (ps : list piece) (got_plain : bool) (got : res) : bool :=
   eqb_cres (concat_any dm ps) (cres_of got_plain got).
+
+(* ================================================================== added with the repair "integer index arrays and lists are not
+   mistaken for all-True masks" (fix-C11idx).  A SOLE 1-D integer ndarray x[np.array(zs)] (any integer dtype) is not an
+   item of the index language above (inside a tuple NumPy and normalize_index read it as the list zs: IList).
+   NumPy reads the sole array as the list zs as well.  normalize_index: repaired, the shortcut
+   `isinstance(index, np.ndarray) and index.dtype == bool and index.all()` does not apply and the array goes through
+   `.tolist()` like the python list x[[..]]; before the repair `index.all()` alone took ANY array without a 0 (the empty
+   one included) for an all-True mask: the data were selected by NumPy, the annotations not at all. *)
+Definition normalize_int_array (rep : bool) (zs : list Z) (nd : Z) : err + list nitem :=
+  if negb rep && all_nonzero zs then inr (repeat nfull (Z.to_nat nd))
+  else normalize_tuple rep nd [IList zs].
+
+(* PipelineData.__getitem__ with the result of normalize_index given: the body of getitem_gen
+   (getitem_gen rep x ix = getitem_with rep x (items ix) (normalize_index rep ix (ndim x)) by computation: ProofsX2.v) *)
+Definition getitem_with (rep : bool) (x : pd) (its : list item) (norm : err + list nitem) : res :=
+  match np_getitem (shape x) (dat x) its with
+  | NPErr => RErr EIndex
+  | NPScalar v =>
+    if existsb is_ell its then
+      match norm with
+      | inl e => RErr e
+      | inr s => match split3 s with
+                 | None => RErr EUnbound
+                 | Some (_, _, ts) => match fix_time rep x ts with inl e => RErr e | inr _ => RScalar v end
+                 end
+      end
+    else RScalar v
+  | NPBig sh =>
+    match norm with
+    | inl e => RErr e
+    | inr _ => RErr EUnbound
+    end
+  | NPArr sh d =>
+    match norm with
+    | inl e => RErr e
+    | inr s =>
+      match split3 s with
+      | None => RErr EUnbound
+      | Some (es, cs, ts) =>
+        match fix_time rep x ts with
+        | inl e => RErr e
+        | inr (s0', fsd') =>
+          match fix_chan rep cs (finalize_chan (chan x) sh) with
+          | inl e => RErr e
+          | inr ch' =>
+            match fix_meta es (meta x) with
+            | inl e => RErr e
+            | inr md' => RArr {| shape := sh; dat := d; s0 := s0'; fsn := fsn x; fsd := fsd';
+                                 chan := ch'; meta := md' |}
+            end
+          end
+        end
+      end
+    end
+  end.
+Definition getitem_int_array (rep : bool) (x : pd) (zs : list Z) : res :=
+  getitem_with rep x [IList zs] (normalize_int_array rep zs (ndim x)).
+
+(* an index expression of the language, or a sole integer ndarray *)
+Inductive xindex := XIdx (ix : index) | XArr (zs : list Z).
+Definition getitem_x (rep : bool) (x : pd) (i : xindex) : res :=
+  match i with XIdx ix => getitem_gen rep x ix | XArr zs => getitem_int_array rep x zs end.
+Fixpoint getitems_x (rep : bool) (x : pd) (ixs : list xindex) : res :=
+  match ixs with
+  | [] => RArr x
+  | i :: t => match getitem_x rep x i with
+              | RArr y => getitems_x rep y t
+              | r => r
+              end
+  end.
+Definition check_getitems_x (rep : bool) (x : pd) (ixs : list xindex) (got : res) : bool :=
+  eqb_res (getitems_x rep x ixs) got.
